@@ -1041,6 +1041,66 @@ def builder_exhaustive(seed, dmax=5, kmax=40):
     return out
 
 
+def small_scope(seed, depth=3, cfgs=(('u64', 5, 'max'), ('h256', 3, 'bt'), ('u8', 33, 'vec')), sample=None):
+    """Small-scope enumeration: EVERY sequence of `depth` operations over a reduced alphabet (two handles, two
+    values: zero and one non-zero, every write path, flush, hash, clone, rebase both ways, self-deduplication,
+    front removal, conversion to a fresh copy), from each of a few initial contents, for a few small
+    configurations; each history ends by flushing, hashing and comparing every handle with a fresh build.
+    `sample` (a number) draws that many sequences at random instead of enumerating (for larger depths)."""
+    import itertools
+    rng = random.Random(seed)
+    out = []
+
+    def alphabet(h):
+        z, a = h.pool[0], h.pool[3]
+        def ln(r):
+            return len(h.regs[r]['v']) if r in h.regs else 0
+        def has(r):
+            return r in h.regs
+        return [
+            lambda: h.push(0, z), lambda: h.push(0, a),
+            lambda: h.write(0, i=0, v=a, how='set') if ln(0) else h.push(0, a),
+            lambda: h.write(0, i=ln(0) - 1, v=z, how='cow_make') if ln(0) else h.push(0, z),
+            lambda: h.apply(0), lambda: (h.hash(0) if not h.regs[0]['p'] else h.apply(0)),
+            lambda: h.clone(0, 1),
+            lambda: (h.rebase_on(0, 1) if has(1) else h.clone(0, 1)),
+            lambda: (h.rebase_on(1, 0) if has(1) else h.clone(0, 1)),
+            lambda: h.intra(0),
+            lambda: h.pop_front(0, 1 if ln(0) >= 1 else 0), lambda: h.pop_front(0, 2 if ln(0) >= 2 else ln(0)),
+            lambda: (h.push(1, z) if has(1) else h.clone(0, 1)),
+            lambda: ((h.hash(1) if not h.regs[1]['p'] else h.apply(1)) if has(1) else h.clone(0, 1)),
+            lambda: (h.fresh_like(0, 1) if not h.regs[0]['p'] else h.apply(0)),
+            lambda: (h.intra(1) if has(1) else h.clone(0, 1)),
+        ]
+
+    for kind, n, mp in cfgs:
+        cfg = Cfg(kind, n, mp)
+        p = pool(kind)
+        z, a = p[0], p[3]
+        inits = [[], [a], [a, z], [z, z, z][:n], [a, z, a][:n], ([a] * n)[:5]]
+        nalpha = 16
+        if sample:
+            seqs = [tuple(rng.randrange(nalpha) for _ in range(depth)) for _ in range(sample // (len(cfgs) * len(inits)) + 1)]
+        else:
+            seqs = list(itertools.product(range(nalpha), repeat=depth))
+        for init in inits:
+            for seq in seqs:
+                h = H(cfg, random.Random(rng.getrandbits(64)), 'small_scope')
+                h.new_list(0, list(init))
+                if rng.random() < 0.5:
+                    h.hash(0)
+                for k in seq:
+                    if 0 not in h.regs:
+                        break
+                    alphabet(h)[k]()
+                for r in (0, 1):
+                    if r in h.regs:
+                        h.apply(r)
+                        h.check_fresh(r)
+                out.append(h)
+    return out
+
+
 if __name__ == '__main__':
     import sys
     seed = int(sys.argv[1]) if len(sys.argv) > 1 else 0
